@@ -49,7 +49,7 @@ import (
 // is a defect of the table cache, not of the iterators compared here.  Set to false once that defect is
 // handled: the states then run with the randomly drawn / default setting.  The number of states that ran
 // with the workaround is reported in the histogram "workaround".
-var WorkaroundDiscardCache = true
+var WorkaroundDiscardCache = false
 
 // Sizes scales the generator.
 type Sizes struct {
